@@ -39,3 +39,90 @@ End Chain.
 Arguments get_chain {A B}.
 Arguments chain {A B}.
 Arguments nest {A B}.
+
+(* ---- stream twin: getChainStreamHandler / ChainStreamInterceptor. A stream
+   handler takes two arguments (srv, stream); the recursion is the same. ---- *)
+Section SChain.
+  Context (Srv SS E : Type).
+  Definition shandler := Srv -> SS -> E.
+  Definition sinterceptor := Srv -> SS -> shandler -> E.   (* info is fixed per call: left out *)
+
+  Fixpoint get_schain (fuel : nat) (is : list sinterceptor) (curr : nat) (final : shandler) : shandler :=
+    match fuel with
+    | O => final
+    | S f =>
+        match nth_error is (curr + 1) with
+        | Some i => fun srv ss => i srv ss (get_schain f is (curr + 1) final)
+        | None => final
+        end
+    end.
+
+  Definition schain (is : list sinterceptor) : option sinterceptor :=
+    match is with
+    | [] => None
+    | i0 :: _ => Some (fun srv ss h => i0 srv ss (get_schain (length is - 1) is 0 h))
+    end.
+
+  Definition snest (is : list sinterceptor) (h : shandler) : shandler :=
+    fold_right (fun i k => fun srv ss => i srv ss k) h is.
+End SChain.
+
+Arguments get_schain {Srv SS E}.
+Arguments schain {Srv SS E}.
+Arguments snest {Srv SS E}.
+
+(* ---- installation and call sites ----
+   Server options are applied in order (NewServer: for _, opt := range opts);
+   UnaryInterceptor(i) and ChainUnaryInterceptor(is...) both assign the single
+   field s.unaryInterceptor, so the last one wins. The call site (the
+   generated method handler for unary calls, server.go runStream for streams,
+   client.go Invoke / NewStream on the client) applies the installed
+   interceptor to the final handler when there is one, else calls the handler. *)
+Section Sites.
+  Context (A B : Type).
+  Inductive sopt :=
+  | OSingle (i : interceptor A B)
+  | OChain (is : list (interceptor A B))
+  | OOther.                              (* any option that does not touch the field *)
+
+  (* None = field nil; Some None = ChainUnaryInterceptor() with no interceptor:
+     a closure that indexes interceptors[0] and panics at the first call *)
+  Definition apply_opt (cur : option (option (interceptor A B))) (o : sopt) : option (option (interceptor A B)) :=
+    match o with
+    | OSingle i => Some (Some i)
+    | OChain is => Some (chain is)
+    | OOther => cur
+    end.
+
+  Definition installed (opts : list sopt) : option (option (interceptor A B)) :=
+    fold_left apply_opt opts None.
+
+  (* result of one RPC at the call site; None = panic (empty chain) *)
+  Definition site (inst : option (option (interceptor A B))) (h : handler A B) (a : A) : option B :=
+    match inst with
+    | None => Some (h a)                  (* interceptor == nil: call the handler *)
+    | Some None => None
+    | Some (Some i) => Some (i h a)
+    end.
+
+  (* a client connection has one optional interceptor (dialoption.go): the
+     call site of Invoke / NewStream is [site] with invoke / newStream as the
+     final handler *)
+  Definition client_site (ic : option (interceptor A B)) (invoke : handler A B) (a : A) : B :=
+    match ic with
+    | None => invoke a
+    | Some i => i invoke a
+    end.
+
+  (* an interceptor that transforms what it passes on and what it returns *)
+  Definition transform (f : A -> A) (g : B -> B) : interceptor A B := fun k a => g (k (f a)).
+End Sites.
+
+Arguments OSingle {A B}.
+Arguments OChain {A B}.
+Arguments OOther {A B}.
+Arguments apply_opt {A B}.
+Arguments installed {A B}.
+Arguments site {A B}.
+Arguments client_site {A B}.
+Arguments transform {A B}.
